@@ -75,6 +75,7 @@ func stateDev(state string, seed uint64) *plan.Dev {
 		for i := 0; i < 3; i++ {
 			d.Script = append(d.Script, plan.DevStep{})
 		}
+	case "afterfail": // a working source; the call before this one met a source that failed part-way
 	default:
 		panic("c09: state " + state)
 	}
@@ -112,7 +113,7 @@ func JudgeCount(c *C09Case, o *plan.Outcome, d *dev.Dev) (string, string) {
 		return "", ""
 	}
 	switch c.State {
-	case "work", "frag":
+	case "work", "frag", "afterfail":
 		if !o.IsNil {
 			return "rejected", fmt.Sprintf("count %d on a working source failed with %s", c.Count, o.Err)
 		}
@@ -175,6 +176,15 @@ func RunC09Case(c *C09Case, d *dev.Dev) (o plan.Outcome, class, detail string) {
 		}
 	}()
 	if c.Kind == "count" {
+		if c.State == "afterfail" {
+			// set the stage: a legal call whose source fails after a few bytes
+			k := int(c.Seed%15) + 1
+			d.Arm(&plan.Dev{Seed: c.Seed, Script: []plan.DevStep{{D: k}, {E: []string{"err", "eof", "ueof"}[c.Seed%3]}, {E: "err"}, {E: "err"}}})
+			func() {
+				defer func() { recover() }()
+				_, _ = bip39.NewMnemonic([]int{12, 15, 18, 21, 24}[c.Seed%5], bip39.Language(c.Lang))
+			}()
+		}
 		d.Arm(stateDev(c.State, c.Seed))
 		m, err := bip39.NewMnemonic(c.Count, bip39.Language(c.Lang))
 		o.Out = q(m)
